@@ -179,7 +179,7 @@ def c03_4(ctx, ss):
     # the table handed to the visitor is the file's ChargeConj table
     af, aflow = fn(ss, DEC, ACC)
     ctor = [c for c in pf.calls_in(af.node) if isinstance(c.func, ast.Name) and c.func.id == "ChargeConjugateReplacement"]
-    ok = bool(ctor) and all(aflow.text(c.keywords[0].value if c.keywords else c.args[0]) == "self.dict_charge_conjugates()" for c in ctor if c.keywords or c.args)
+    ok = bool(ctor) and all((c.keywords or c.args) and aflow.text(c.keywords[0].value if c.keywords else c.args[0]) == "self.dict_charge_conjugates()" for c in ctor)
     (ctx.holds if ok else ctx.violation)("C03.4", ckey(af, None, "table"), where(af, ctor[0] if ctor else af.node),
                                           "the visitor gets self.dict_charge_conjugates()" if ok else "the visitor is not given the file's ChargeConj table")
 
@@ -202,11 +202,11 @@ def c03_5(ctx, ss):
         else:
             ctx.violation("C03.5", ckey(ff, None, "exit:" + tv[:60]), where(ff, r), f"unexpected exit `return {tv[:100]}`")
     want = {
-        "forward": {(p_tab, True), (f"{p_tab}.get({p_name}) is not None", True)},
-        "reverse": {(p_tab, True), (f"__elem__({p_tab}.items())[1] == {p_name}", True), (f"{p_tab}.get({p_name}) is not None", False)},
+        "forward": {(p_tab, True), (f"{p_tab}.get({p_name}) is None", False)},
+        "reverse": {(p_tab, True), (f"__elem__({p_tab}.items())[1] == {p_name}", True), (f"{p_tab}.get({p_name}) is None", True)},
         "database": set(),
     }
-    alt = {"reverse": {(p_tab, True), (f"{p_name} == __elem__({p_tab}.items())[1]", True), (f"{p_tab}.get({p_name}) is not None", False)}}
+    alt = {"reverse": {(p_tab, True), (f"{p_name} == __elem__({p_tab}.items())[1]", True), (f"{p_tab}.get({p_name}) is None", True)}}
     for kname, w in want.items():
         k = ckey(ff, None, f"exit:{kname}")
         if kname not in kinds:
@@ -216,7 +216,10 @@ def c03_5(ctx, ss):
         r, conds = kinds[kname]
         got = set(conds)
         # tolerate the equivalent `is not None` / truthiness spellings of the table test
-        norm = {(t.replace(f"{p_tab} is not None", p_tab), p) for t, p in got}
+        norm = {((p_tab, not p) if t == f"{p_tab} is None" else (t, p)) for t, p in got}
+        if kname == "database":
+            # the database exit is the fall-through: whatever guards remain on it are the negations of the earlier exits
+            norm = {x for x in norm if x not in {(p_tab, True), (p_tab, False), (f"{p_tab}.get({p_name}) is None", True)}}
         if norm == w or norm == alt.get(kname):
             ctx.holds("C03.5", k, where(ff, r), f"{kname} exit guarded exactly by {sorted(t for t, _ in w) or 'nothing'}", len(w) + 1)
         else:
@@ -308,9 +311,18 @@ def c03_8(ctx, ss):
     ff, flow = fn(ss, DEC, ACC)
     work = "self.list_charge_conjugate_decays()"
     for r in [r for r in returns(ff)]:
-        conds = [(txt(flow.expand(e)), pol) for kind, e, pol in guards.path_conditions(ff.node, r) if kind == "if" and pol]
+        # the return's own guard (innermost condition) says: the list of CDecay names still to treat is empty
+        allc = [(flow.expand(e), pol) for kind, e, pol in guards.path_conditions(ff.node, r) if kind == "if"]
+        conds = [(txt(e), pol) for e, pol in allc]
         k = ckey(ff, None, "early-return")
-        ok = bool(conds) and conds[-1][0] in (f"len({work}) == 0", f"not {work}")
+
+        def is_worklist(e):
+            if txt(e) == work:
+                return True
+            if isinstance(e, ast.ListComp) and len(e.generators) == 1 and txt(e.generators[0].iter) == work and txt(e.elt) == f"__elem__({work})":
+                return True       # the work list minus the names that have a Decay block
+            return False
+        ok = bool(allc) and is_worklist(allc[0][0]) and allc[0][1] is False
         (ctx.holds if ok else ctx.violation)("C03.8", k, where(ff, r), "early return only when no CDecay remains to be treated" if ok
                                               else f"_add_charge_conjugate_decays returns early under {conds}: CDecay statements are silently not honoured")
     visits = [c for c in pf.calls_in(ff.node) if isinstance(c.func, ast.Attribute) and c.func.attr == "visit" and "ChargeConjugateReplacement" in txt(c.func.value)]
